@@ -108,8 +108,16 @@ type Ctx struct {
 	nsample  int64
 	last     *Failure
 	replayMode bool
+	inReplay   bool
 	curCheck string
 }
+
+// ReplayMode reports whether saved cases are being replayed (committed regression
+// replays run at the end of every check as well).
+func (c *Ctx) ReplayMode() bool { return c.replayMode }
+
+// InReplay reports whether the oracle is currently being run on a saved case.
+func (c *Ctx) InReplay() bool { return c.inReplay }
 
 // Thorough reports whether the thorough tier is running.
 func (c *Ctx) Thorough() bool { return c.Tier == "thorough" }
@@ -447,6 +455,8 @@ func (c *Ctx) Finish() {
 
 // runReplays replays the files listed in VERIF_REPLAY (path-separated by \x1f).
 func (c *Ctx) runReplays(list string) {
+	c.inReplay = true
+	defer func() { c.inReplay = false }()
 	for _, p := range strings.Split(list, "\x1f") {
 		if p == "" {
 			continue
